@@ -28,8 +28,8 @@ ASSUMPTIONS = [
     "Transitions.split raising 'Not enough transitions' is accepted iff n_parts exceeds the number of events",
     'K7: n_parts >= n_frames makes Trajectory.split build an empty sub-trajectory (IndexError); tolerated only for exactly that input class',
 ]
-N_CASES = {'quick': 260, 'thorough': 8000}
-BUDGET_S = {'quick': 220, 'thorough': 2400}
+N_CASES = {'quick': 260, 'thorough': 20000}
+BUDGET_S = {'quick': 220, 'thorough': 3600}
 ECOLS = ['atom index', 'start site', 'destination site', 'start inner site', 'destination inner site', 'time']
 JCOLS = ['atom index', 'start site', 'destination site', 'start time', 'stop time']
 
